@@ -237,6 +237,44 @@ pub fn run_c10(ctx: &mut Ctx, shard: usize, nshards: usize) {
             }
         }
     }
+    // the largest well-formed SDES packets there are: exactly 65 536 words (length field 0xffff) and one word less,
+    // as one chunk of maximal items, unpadded and with the last words taken by padding
+    if ctx.scale >= 0.5 {
+        let mut k = 0usize;
+        for total in [262_144usize, 262_140] {
+            for pad in [0u8, 4, 252] {
+                k += 1;
+                if k % nshards != shard {
+                    continue;
+                }
+                // items + terminator fill the chunk exactly: sum(items) == total - pad - 8 - 1
+                let mut left = total - pad as usize - 9;
+                let mut items = vec![];
+                while left >= 257 + 2 || left == 257 {
+                    items.push(Item { type_: 1 + (items.len() % 7) as u8, prefix: vec![], value: "m".repeat(255) });
+                    left -= 257;
+                }
+                if left > 257 {
+                    items.push(Item { type_: 3, prefix: vec![], value: "y".repeat(100) });
+                    left -= 102;
+                }
+                if left >= 2 {
+                    items.push(Item { type_: 2, prefix: vec![], value: "z".repeat(left - 2) });
+                    left = 0;
+                }
+                if left != 0 {
+                    continue;
+                }
+                let c = Cfg::Sdes { chunks: vec![Chunk { ssrc: 0x0a0b_0c0d, items }], padding: pad };
+                if let Some(b) = enc::enc(&c) {
+                    if b.len() == total {
+                        check_c10(ctx, &b);
+                        ctx.class("c10:largest-packet(65536 or 65535 words)");
+                    }
+                }
+            }
+        }
+    }
     // well-formed packets from the independent encoder, then mutated
     let n = ctx.n(if ctx.thorough { 600_000 } else { 40_000 });
     let mut s = Src::prng(mix(ctx.seed, 0xc10 + shard as u64));
